@@ -229,25 +229,35 @@ VCLAUSE(eigenvalues, 200, 5000, 100000, "n >= 3 and the matrix is not diagonal, 
 	VMUST_RETURN("Eigenvalues of a symmetric matrix with separated spectrum", ev = libphysica::Eigenvalues(A));
 	VCHECK((int) ev.size() == n, "returned " << ev.size() << " eigenvalues for n=" << n);
 	std::vector<long double> ref = jacobi_eigenvalues(to_l(S.a));
-	long double lmax = 0, tr = 0, det = 1, trr = 0, detr = 1;
+	long double lmax = 0, tr = 0, det = 1;
 	for(auto l : ref)
-	{
 		lmax = std::max(lmax, fabsl(l));
-		trr += l;
-		detr *= l;
-	}
+	// trace and determinant of the matrix itself (not of the reference spectrum): independent of both eigenvalue computations
+	long double trr = 0, detr = l_det(to_l(S.a));
+	for(int i = 0; i < n; i++)
+		trr += (long double) S.a[(size_t) i][(size_t) i];
 	// multiset comparison: sort both by value
-	std::vector<long double> got(ev.begin(), ev.end());
+	std::vector<long double> got(ev.begin(), ev.end()), built(S.lam.begin(), S.lam.end());
 	std::sort(got.begin(), got.end());
 	std::sort(ref.begin(), ref.end());
+	std::sort(built.begin(), built.end());
+	// the reference must reproduce the spectrum the matrix was built from (rounding Q D Q^T to double moves it by <= n eps |lambda|max)
+	for(int i = 0; i < n; i++)
+		VCHECK(fabsl(ref[(size_t) i] - built[(size_t) i]) <= 8.0L * n * EPS * lmax, "harness: Jacobi reference " << (double) ref[(size_t) i] << " disagrees with the constructed eigenvalue " << (double) built[(size_t) i]);
+	// Tolerance: an off-diagonal remainder eps_off moves an eigenvalue by eps_off^2/gap only; what remains is the rounding of up to 200
+	// orthogonal similarity transforms, each n*eps*|lambda|max at worst: 200*7*eps = 3e-13. Measured worst on the repaired tree: 1.3e-14.
+	double evtol = 1e-12 * (double) lmax;
+	long double relsum = 0;
 	for(int i = 0; i < n; i++)
 	{
-		VCLOSE(c, "eigenvalue_vs_jacobi", (double) got[(size_t) i], (double) ref[(size_t) i], 1e-10 * (double) lmax, "sorted eigenvalue " << i);
+		VCLOSE(c, "eigenvalue_vs_jacobi", (double) got[(size_t) i], (double) ref[(size_t) i], evtol, "sorted eigenvalue " << i);
 		tr += got[(size_t) i];
 		det *= got[(size_t) i];
+		relsum += evtol / fabsl(ref[(size_t) i]);
 	}
-	VCLOSE(c, "sum_is_trace", (double) tr, (double) trr, 1e-10 * (double) lmax * n, "sum of the eigenvalues vs the trace");
-	VCLOSE(c, "product_is_determinant", (double) (det / detr), 1.0, 1e-9 * n, "product of the eigenvalues vs the determinant");
+	VCLOSE(c, "sum_is_trace", (double) tr, (double) trr, evtol * n, "sum of the eigenvalues vs the trace of the matrix");
+	// first-order propagation of the per-eigenvalue tolerance into the product
+	VCLOSE(c, "product_is_determinant", (double) (det / detr), 1.0, (double) (2 * relsum) + 64 * n * EPS, "product of the eigenvalues vs the determinant of the matrix (pivoted LU in long double)");
 }
 
 // Eigensystem / Eigenvectors may fail to terminate: every case runs in a forked child under a watchdog
@@ -305,7 +315,9 @@ VCLAUSE_ISOLATED(eigensystem, 200, 2500, 50000, "n >= 3 and the matrix is not di
 		long double res = 0;
 		for(int i = 0; i < n; i++)
 			res += (mv[(size_t) i] - lam * v[i]) * (mv[(size_t) i] - lam * v[i]);
-		VCLOSE(c, "residual", (double) (sqrtl(res) / lmax), 0.0, 1e-8, "||M v - lambda v|| / |lambda|_max for pair " << k << " (lambda=" << (double) lam << ")");
+		// "within rounding": inverse iteration and accumulated transformations both reach a few n*eps; 1e-12 leaves three orders of magnitude
+		// over the measured worst (4.8e-16) and is four orders below the former 1e-8, which admitted eigenvectors mixed at the 1e-3 level
+		VCLOSE(c, "residual", (double) (sqrtl(res) / lmax), 0.0, 1e-12, "||M v - lambda v|| / |lambda|_max for pair " << k << " (lambda=" << (double) lam << ")");
 		// lambda matches an eigenvalue of the reference; every eigenvalue must be covered exactly once
 		int best = -1;
 		long double bd = 1e300L;
@@ -315,7 +327,7 @@ VCLAUSE_ISOLATED(eigensystem, 200, 2500, 50000, "n >= 3 and the matrix is not di
 				bd	 = fabsl(ref[(size_t) i] - lam);
 				best = i;
 			}
-		VCLOSE(c, "eigenvalue_matches_reference", (double) lam, (double) ref[(size_t) best], 1e-8 * (double) lmax, "eigenvalue of pair " << k);
+		VCLOSE(c, "eigenvalue_matches_reference", (double) lam, (double) ref[(size_t) best], 1e-12 * (double) lmax, "eigenvalue of pair " << k);
 		used[(size_t) best]++;
 	}
 	for(int i = 0; i < n; i++)
